@@ -316,12 +316,16 @@ func (te *tableEngine) playersAutoIn() {
 }
 
 func (te *tableEngine) batchRemovePlayers(playerIDs []string) error {
+	// the seat manager validates the whole batch: ask it first so that a refused batch changes nothing
+	if err := te.sm.RemoveSeats(playerIDs); err != nil {
+		return err
+	}
+	te.verifHook("members.remove.mid")
 	newPlayerStates, newSeatMap, newGamePlayerIndexes := te.calcLeavePlayers(te.table.State.Status, playerIDs, te.table.State.PlayerStates, te.table.Meta.TableMaxSeatCount)
 	te.table.State.PlayerStates = newPlayerStates
 	te.table.State.SeatMap = newSeatMap
 	te.table.State.GamePlayerIndexes = newGamePlayerIndexes
-	te.verifHook("members.remove.mid")
-	return te.sm.RemoveSeats(playerIDs)
+	return nil
 }
 
 func (te *tableEngine) refreshNextBBOrderPlayerIDs(currentBBSeatID, tableMaxSeatCount int, players []*TablePlayerState, seatMap []int) []string {
